@@ -223,6 +223,7 @@ matrixSslSessOptsSetServerTlsVersions(sslSessOpts_t *options,
         return PS_ARG_FAIL;
     }
 
+    options->supportedVersionsLen = 0;
     for (i = 0, k = 0; i < versionsLen; i++)
     {
         if (!matrixSslTlsVersionRangeSupported(versions[i], versions[i]))
